@@ -219,6 +219,28 @@ static int ss_setstr(int argc, char **argv)
    return 0;
    }
 
+/* ss.setd <subset> <index> <hex16> / ss.setf <subset> <index> <hex8>: set a double / float given by its bits */
+static int ss_setfp(int argc, char **argv)
+   {
+   DataSubset *s; BufrDescriptor *b; unsigned long long bits;
+   if (argc != 4) { fputs("bad-op", bvp_out); return 0; }
+   s = cur_dts ? bufr_get_datasubset(cur_dts, atoi(argv[1])) : NULL;
+   b = s ? bufr_datasubset_get_descriptor(s, atoi(argv[2])) : NULL;
+   if (!b) { fputs("none", bvp_out); return 0; }
+   bits = strtoull(argv[3], NULL, 16);
+   if (strcmp(argv[0], "ss.setd") == 0)
+      {
+      double d; uint64_t u = bits; memcpy(&d, &u, 8);
+      fprintf(bvp_out, "%d", bufr_descriptor_set_dvalue(b, d));
+      }
+   else
+      {
+      float f; uint32_t u = (uint32_t)bits; memcpy(&f, &u, 4);
+      fprintf(bvp_out, "%d", bufr_descriptor_set_fvalue(b, f));
+      }
+   return 0;
+   }
+
 static int ds_encode(int argc, char **argv)
    {
    BUFR_Message *m;
@@ -359,5 +381,5 @@ static int ds_decodemsg(int argc, char **argv)
 struct op_entry ops_codec[] = {
    { "ss.vals", ss_vals }, { "ss.setraw", ss_setraw }, { "ss.setstr", ss_setstr },
    { "ss.fill", ss_fill }, { "ds.encode", ds_encode }, { "ds.decode", ds_decode }, { "ds.decodelast", ds_decodelast }, { "dd.list", dd_list }, { "dd.vals", dd_vals },
-   { "dd.tocur", dd_tocur }, { "dd.merge", dd_merge }, { "ds.decodemsg", ds_decodemsg },
+   { "ss.setd", ss_setfp }, { "ss.setf", ss_setfp }, { "dd.tocur", dd_tocur }, { "dd.merge", dd_merge }, { "ds.decodemsg", ds_decodemsg },
    { NULL, NULL } };
